@@ -82,7 +82,9 @@ def _build(ctx, kinds):
             f = hf.DataFrame(1)
             f.data = sym_bytes('big%d' % i, 0, 2 ** 24 - 1, default=17000)
         else:
-            f = ops.build_frame(ctx, FRAME_OPS[k], True)
+            # error codes / last-stream-id of RST_STREAM and GOAWAY have nothing to do with
+            # chunking (each symbolic code forks ~14 ways in the enum conversion): concrete here
+            f = ops.build_frame(ctx, FRAME_OPS[k], k not in ('GOAWAY', 'RST'))
         frames.append(f)
     _core.NAME_PREFIX[0] = ''
     return frames
